@@ -199,7 +199,7 @@ def check_truncation_semantics(prog, ctx):
                             if ok and absorb in (0, "both"):
                                 ok = inner[0] == "sqrt"
                                 inner = inner[1] if ok else None
-                            ok = ok and inner[0] == "slice" and inner[1] == ("s", c)
+                            ok = ok and (inner == ("s", c) or (inner[0] == "slice" and inner[1] == ("s", c)))
                             if not ok:
                                 bad["R13.2"] = bad["R13.2"] or f"absorb={absorb}: factor {factor} is not the (sqrt of the) kept singular values of charge {c} along the bond axis {want_shape}"
         # unknown absorb value
